@@ -628,16 +628,25 @@ func Leaked() (lib, other []string) {
 	buf := make([]byte, 4<<20)
 	buf = buf[:runtime.Stack(buf, true)]
 	self := true
+	bubble := ""
 	for _, g := range strings.Split(string(buf), "\n\n") {
-		if self { // the first stanza is the calling goroutine
+		if self { // the first stanza is the calling goroutine; it names our bubble
 			self = false
+			if i := strings.Index(firstLineOf(g), "synctest bubble "); i >= 0 {
+				bubble = strings.TrimRight(firstLineOf(g)[i:], "]:")
+			}
 			continue
 		}
-		if !strings.Contains(firstLineOf(g), "synctest bubble") {
+		// only goroutines of THIS bubble (an earlier run that ended in a
+		// deadlock leaves its goroutines parked forever)
+		if bubble == "" || !strings.Contains(firstLineOf(g), bubble+"]") {
 			continue
 		}
 		if strings.Contains(g, "internal/synctest.Run") || strings.Contains(g, "testing/synctest.testingSynctestTest(") {
 			continue
+		}
+		if os.Getenv("VERIF_DEBUG") != "" {
+			fmt.Fprintf(os.Stderr, "LEAKED:\n%s\n\n", g)
 		}
 		if f := LibFrame(g); f != "unknown" {
 			lib = append(lib, f)
